@@ -314,9 +314,73 @@ func checkUnsignedGuards(c *Ctx, p *GoProg, fd *ast.FuncDecl, label string, min 
 				}
 			}
 		}
+		// the bound must still hold at the call: the variable may only have been decremented since, and only where it is
+		// known to be at least 1 (an unsigned decrement of 0 wraps to 2^64−1, which int() turns into −1)
+		if guarded {
+			ast.Inspect(fd.Body, func(m ast.Node) bool {
+				switch x := m.(type) {
+				case *ast.FuncLit:
+					return false
+				case *ast.IncDecStmt:
+					xid, ok := ast.Unparen(x.X).(*ast.Ident)
+					if !ok || p.ObjOf(xid) != obj {
+						return true
+					}
+					if x.Tok != token.DEC {
+						guarded = false
+						signedOnly = "the variable is incremented after the guard"
+						return true
+					}
+					b2, _, okb := fg.Where(x)
+					pos1 := false
+					if okb {
+						for _, ef := range fg.DominatingFacts(b2) {
+							for _, a := range atomsOf(ef) {
+								be, ok := ast.Unparen(a.E).(*ast.BinaryExpr)
+								if !ok {
+									continue
+								}
+								op := be.Op
+								if a.Neg {
+									op = negateOp(op)
+								}
+								lx, ly := ast.Unparen(be.X), ast.Unparen(be.Y)
+								lid, okl := lx.(*ast.Ident)
+								k, okk := p.ConstInt(ly)
+								if !okl || p.ObjOf(lid) != obj || !okk {
+									continue
+								}
+								if (op == token.GEQ && k >= 1) || (op == token.GTR && k >= 0) || (op == token.NEQ && k == 0) {
+									pos1 = true
+								}
+							}
+						}
+					}
+					if !pos1 {
+						guarded = false
+						signedOnly = "`" + p.Str(x) + "` at " + p.Pos(x) + " is not preceded by a test that the value is at least 1: 0 wraps around and int() makes it −1"
+					}
+				case *ast.AssignStmt:
+					if x.Tok == token.DEFINE {
+						return true
+					}
+					for _, l := range x.Lhs {
+						if lid, ok := ast.Unparen(l).(*ast.Ident); ok && p.ObjOf(lid) == obj {
+							guarded = false
+							signedOnly = "the variable is reassigned at " + p.Pos(x) + " after it was read from the input"
+						}
+					}
+				}
+				return true
+			})
+		}
 		msg := "the length handed to " + p.Str(call) + " comes from the input and is not bounded by an unsigned comparison with the remaining input"
 		if signedOnly != "" {
-			msg += " (the only guard, `" + signedOnly + "`, converts it to int first: values >= 2^63 become negative and pass)"
+			if strings.Contains(signedOnly, "int(") && !strings.Contains(signedOnly, "wraps") {
+				msg += " (the only guard, `" + signedOnly + "`, converts it to int first: values >= 2^63 become negative and pass)"
+			} else {
+				msg += " (" + signedOnly + ")"
+			}
 		}
 		c.Check(guarded, label+":next-guard:"+p.Str(call), p.Pos(call), "bounded by an unsigned comparison with br.Len()", msg, "a 10-byte block-size varint of 2^63+1")
 		return true
